@@ -1,6 +1,7 @@
 import Driver.SpecCmds
 import Driver.GenCmds
 import Driver.NumCmds
+import Driver.MemCmds
 
 open Driver
 
@@ -13,6 +14,9 @@ def handle (line : String) : String :=
   | some r => r
   | none =>
   match numCmd ws with
+  | some r => r
+  | none =>
+  match memCmd ws with
   | some r => r
   | none => "err unknown-command"
 
